@@ -260,6 +260,7 @@ int cgi_read_all_base_children(double base_id, int* nnodes, _childnode_t** child
     idlist = CGNS_NEW(double, nchildren);
     if (cgio_children_ids(cg->cgio, base_id, 1, nchildren,
         &len, idlist)) {
+        CGNS_FREE(idlist);
         cg_io_error("cgio_children_ids");
         return CG_ERROR;
     }
@@ -273,6 +274,8 @@ int cgi_read_all_base_children(double base_id, int* nnodes, _childnode_t** child
     for (nid = 0, n = 0; n < nchildren; n++) {
         /* Get the node label */
         if (cgio_get_label(cg->cgio, idlist[n], nodelabel)) {
+            CGNS_FREE(idlist);
+            CGNS_FREE(childlist);
             cg_io_error("cgio_get_label");
             return CG_ERROR;
         }
@@ -285,6 +288,8 @@ int cgi_read_all_base_children(double base_id, int* nnodes, _childnode_t** child
             }
             /* Get also the node name */
             if (cgio_get_name(cg->cgio, idlist[n], childlist[nid].name)) {
+                CGNS_FREE(idlist);
+                CGNS_FREE(childlist);
                 cg_io_error("cgio_get_name");
                 return CG_ERROR;
             }
@@ -356,11 +361,13 @@ int cgi_read_base(cgns_base *base)
     if (strcmp(data_type,"I4")!=0) {
         cgi_error("Unexpected data type for dimension data of base %s='%s'",
                base->name, data_type);
+        CGNS_FREE(vdata);
         return CG_ERROR;
     }
     if ((cg->version==1050 && (ndim != 1 || dim_vals[0]!=1)) ||
         (cg->version >= 1100 && (ndim != 1 || dim_vals[0]!=2))) {
         cgi_error("Wrong definition of Base Dimensions.");
+        CGNS_FREE(vdata);
         return CG_ERROR;
     }
     if (cg->version == 1050) {  /* old multiblock format */
@@ -550,10 +557,14 @@ int cgi_read_zone(cgns_zone *zone)
      /* verify data read */
     if (ndim!=2) {
         cgi_error("Wrong number of dimension for a Zone_t node");
+        CGNS_FREE(vdata);
         return CG_ERROR;
     }
      /* ZoneType_t */
-    if (cgi_read_zonetype(zone->id, zone->name, &zone->type)) return CG_ERROR;
+    if (cgi_read_zonetype(zone->id, zone->name, &zone->type)) {
+        CGNS_FREE(vdata);
+        return CG_ERROR;
+    }
 
      /* Set IndexDimension of zone */
     if (zone->type==CGNS_ENUMV(Structured)) zone->index_dim=Cdim;
@@ -565,6 +576,7 @@ int cgi_read_zone(cgns_zone *zone)
     if (dim_vals[0]!=zone->index_dim || ((cg->version==1050 && dim_vals[1]!=2)
         || (cg->version>=1100 && dim_vals[1]!=3))) {
         cgi_error("Wrong number of dimension values for Zone_t %s",zone->name);
+        CGNS_FREE(vdata);
         return CG_ERROR;
     }
 
@@ -612,6 +624,7 @@ int cgi_read_zone(cgns_zone *zone)
     else {
         cgi_error("Unsupported data type for Zone_t node %s= %s",
                zone->name, data_type);
+        CGNS_FREE(vdata);
         return CG_ERROR;
     }
     CGNS_FREE(vdata);
@@ -5789,10 +5802,14 @@ int cgi_read_zonetype(double parent_id, char_33 parent_name,
 
     if (nchild >1) {
         cgi_error("Invalid definition of ZoneType for %s",parent_name);
+        CGNS_FREE(id);
         return CG_ERROR;
     }
 
-    if (cgi_read_string(id[0], name, &zonetype_name)) return CG_ERROR;
+    if (cgi_read_string(id[0], name, &zonetype_name)) {
+        CGNS_FREE(id);
+        return CG_ERROR;
+    }
     CGNS_FREE(id);
 
     if (cgi_ZoneType(zonetype_name, type)) return CG_ERROR;
@@ -6823,6 +6840,8 @@ int cgi_read_node_data(double node_id, char_33 data_type,
 
     /* read data */
     if (cgio_read_all_data_type(cg->cgio, node_id, data_type, data[0])) {
+        CGNS_FREE(data[0]);
+        data[0] = NULL;
         cg_io_error("cgio_read_all_data_type");
         return CG_ERROR;
     }
@@ -6884,6 +6903,8 @@ int cgi_read_node(double node_id, char_33 name, char_33 data_type,
 
      /* read data */
     if (cgio_read_all_data_type(cg->cgio, node_id, data_type, data[0])) {
+        CGNS_FREE(data[0]);
+        data[0] = NULL;
         cg_io_error("cgio_read_all_data_type");
         return CG_ERROR;
     }
@@ -10930,6 +10951,7 @@ int cgi_get_nodes(double parent_id, char *label, int *nnodes, double **id)
     idlist = CGNS_NEW (double, nchildren);
     if (cgio_children_ids(cg->cgio, parent_id, 1, nchildren,
             &len, idlist)) {
+        CGNS_FREE (idlist);
         cg_io_error ("cgio_children_ids");
         return CG_ERROR;
     }
@@ -10941,6 +10963,7 @@ int cgi_get_nodes(double parent_id, char *label, int *nnodes, double **id)
     nid = 0;
     for (nid = 0, n = 0; n < nchildren; n++) {
         if (cgio_get_label(cg->cgio, idlist[n], nodelabel)) {
+            CGNS_FREE (idlist);
             cg_io_error ("cgio_get_label");
             return CG_ERROR;
         }
